@@ -1051,6 +1051,56 @@ example : (exe cfg wLater (runExe cfg St.init [wGuess])).2 = .ok [47, 97]
     ∧ Spec.exeAfter [wGuess] wLater = some (.ok [47, 97]) := by
   decide
 
+/-! ### round 3: vanishing process, unreadable stat, the silent region, padded titles -/
+
+/-- `/proc/<pid>` listed, `stat` gone, ENOENT on cmdline: NoSuchProcess by specification and by the code -/
+def wVanishing : World := { wEx with statExists := false, cmdline := .err .enoent }
+
+example : Spec.cmdline wVanishing = some (.error .noSuchProcess)
+    ∧ cmdline cfg wVanishing = .error .noSuchProcess
+    ∧ name cfg wVanishing = .error .noSuchProcess := by decide
+
+/-- the same ENOENT while `stat` is there: the specification is silent, the code re-raises FileNotFoundError -/
+example : Spec.cmdline { wEx with cmdline := .err .enoent } = none
+    ∧ Silent { wEx with cmdline := .err .enoent } .cmdline
+    ∧ cmdline cfg { wEx with cmdline := .err .enoent } = .error .fileNotFound := by
+  refine ⟨by decide, ?_, by decide⟩
+  exact (C12_silent_region _ _).1 (by decide)
+
+/-- …and outside the silent region the specification speaks (`wEx`, `wGuess`: every call) -/
+example : ∀ c : Call, ¬ Silent wGuess c := by
+  intro c h
+  have := (C12_silent_region wGuess c).2 h
+  cases c <;> revert this <;> decide
+
+/-- the three disjuncts of `C12_exe_result_invariant` are inhabited: link target, guess, `''` -/
+example : (exe cfg wLater ⟨none⟩).2 = .ok [47, 113] ∧ (exe cfg wGuess ⟨none⟩).2 = .ok [47, 97]
+    ∧ (exe cfg wEx ⟨none⟩).2 = .ok [] := by decide
+
+/-- a zombie with an unreadable `stat` is not KNOWN to be one: an empty cmdline is `[]` -/
+example : cmdline cfg { wEx with zombie := true, statReadable := false } = .ok []
+    ∧ cmdline cfg { wEx with zombie := true } = .error .zombieProcess := by decide
+
+/-- the statement's second cmdline rule read as "a rewritten title is ALWAYS split on spaces", also when the
+    process padded the rest of its argument area with NULs (nginx, sshd, postgres) -/
+def C12_cmdline_title_split_Full : Prop :=
+  ∀ (w : World) (t : Bytes) (k : Nat), w.dirExists = true → w.zombie = false → 0 ∉ t → t ≠ [] →
+    w.cmdline = .data (t ++ List.replicate (k + 1) 0) → cmdline cfg w = .ok (fields 32 t)
+
+/-- **C12_cmdline_padded_title_not_split** (characterisation, NOT a finding — integrator decision, round 3). The
+    reading above is false of the code: `a b NUL NUL` comes back as `["a b", ""]`, not `["a", "b"]`. Those bytes
+    ARE the kernel layout of the argument vector `["a b", ""]` (`C12_padded_title_is_an_argv`), so the statement's
+    first rule ("NUL-separated with empty arguments preserved") applies and the two rules cannot both be honoured;
+    the specification follows the first (see the header of Spec/C12.lean). -/
+theorem C12_cmdline_padded_title_not_split :
+    ¬ C12_cmdline_title_split_Full
+    ∧ cmdline cfg { wEx with cmdline := .data [97, 32, 98, 0, 0] } = .ok [[97, 32, 98], []]
+    ∧ renderArgv [[97, 32, 98], []] = [97, 32, 98, 0, 0] := by
+  refine ⟨fun h => ?_, by decide, by decide⟩
+  have := h { wEx with cmdline := .data [97, 32, 98, 0, 0] } [97, 32, 98] 1 rfl rfl (by decide) (by decide) rfl
+  revert this
+  decide
+
 /-- the process whose executable is `ééééééééé` (18 bytes): the kernel keeps 15 bytes, i.e.
     7 `é` and half a character -/
 def wMultiByte : World :=
